@@ -10,7 +10,7 @@ import (
 // checkC11 drives abortsim: every worker process takes an interleaved slice of
 // the input index space and enumerates the abort points of each input.
 func checkC11(c *checkCtx) int {
-	inputs := 136
+	inputs := 144
 	timeout := 5 * time.Minute
 	soft := "90s"
 	if c.Tier == "thorough" {
@@ -108,7 +108,7 @@ func checkC11(c *checkCtx) int {
 	cov := map[string]interface{}{
 		"evaluations":         tot.Budgets,
 		"distinct_nontrivial": minInt(tot.Nontrivial, len(distinct)),
-		"rule":                "an evaluation is one parse of one input under one budget n through one API (grammar.Parse+MaxExpressions or bexpr.CreateEvaluator+WithMaxExpressions); inputs come from the repository's parser tests, seeded grammar derivations over generated data, token-level mutations of those, and nested parentheses of depth 5..16; for inputs whose unlimited parse takes S <= limit steps every n in [1,S+2] is tried (exhaustive_inputs), otherwise n<=64, S+-64, a geometric sweep and seeded samples; distinct_nontrivial counts distinct inputs (by content hash) for which at least one budget abort was actually injected and the threshold was located",
+		"rule":                "an evaluation is one parse of one input under one budget n through one API (grammar.Parse+MaxExpressions or bexpr.CreateEvaluator+WithMaxExpressions); inputs come from the repository's parser tests, seeded grammar derivations over generated data, token-level mutations of those, early-failing inputs with a long unread tail, and nested parentheses of depth 5..16; for inputs whose unlimited parse takes S <= limit steps every n in [1,S+2] is tried (exhaustive_inputs), otherwise n<=64, S+-64, a geometric sweep and seeded samples; distinct_nontrivial counts distinct inputs (by content hash) for which at least one budget abort was actually injected and the threshold was located",
 		"samples":             samples,
 		"exhaustive":          false,
 		"inputs":              tot.Inputs,
@@ -129,13 +129,13 @@ func checkC11(c *checkCtx) int {
 		"worker_processes":                    nproc,
 		"budget_error_signature_learned":      tot.Signature,
 		"parse_expr_entry_sites":              tot.EntrySites,
-		"oracles":                             []string{"n=0 equals no option", "dichotomy: unlimited result or nil+max-expressions error", "monotone threshold", "parseExpr entries <= n+1 (instrumented count, not the library's ExprCnt)", "statements <= 400*(n+1)+20000", "no residue after abort (same and other input)"},
+		"oracles":                             []string{"n=0 equals no option", "dichotomy: unlimited result or nil+max-expressions error", "monotone threshold", "exactness: every budget above the instrumented step count of the unlimited parse is accepted (one spare step allowed)", "parseExpr entries <= n+1 (instrumented count, not the library's ExprCnt)", "statements <= 400*(n+1)+20000", "no residue after abort (same and other input)"},
 	}
 	c.writeEvidence("fault_enumeration", cov, []string{
 		"inputs are sampled, abort points per input are enumerated",
 		"a parser step is an entry of (*parser).parseExpr, counted by instrumentation of the current tree",
 		"the max-expressions error is recognised by the text the current tree produces for budget 1 on a calibration input",
-		"the threshold N is not required to equal the step count (the statement only demands that one exists)",
+		"the threshold N may exceed the instrumented step count S of the unlimited parse by at most one (a >= comparison); a larger gap is reported as budget-not-exact",
 	})
 	return c.exitCode()
 }
